@@ -9,6 +9,8 @@ package main
 
 import (
 	"fmt"
+
+	"golang.org/x/tools/go/ssa"
 )
 
 func ruleMapsCopy(p *Prog, r *Report, rule string) {
@@ -47,4 +49,63 @@ func ruleMapsCopy(p *Prog, r *Report, rule string) {
 		}
 	}
 	r.floor(rule, "maps.Copy / maps.Insert calls", n, 2)
+}
+
+// ruleElemStoreDiscipline (R-ES): element-wise rewriting of lists.
+func ruleElemStoreDiscipline(p *Prog, r *Report, rule string, pkgs map[string]bool) {
+	r.rule(rule, "Stores into the elements of a slice (`l[i] = x`: a filter that keeps some elements, a list whose members are rewritten in place) in the parser, merger and planner packages stand in audited functions (tables/elemstore_audit.tsv, or rows of tables/guards.tsv whose conditions R-G compares). A new place that rewrites the members of a compared list (an address group whose `/32` is stripped) changes what is equal to what.")
+	ok := map[string]string{}
+	for _, row := range readTable("elemstore_audit.tsv", 2) {
+		ok[row[0]] = row[1]
+	}
+	for _, row := range readTable("guards.tsv", 5) {
+		if len(row[1]) > 10 && row[1][:10] == "elemstore:" {
+			ok[row[0]] = "guard row"
+		}
+	}
+	n := 0
+	seen := map[string]bool{}
+	for _, fn := range allModFuncs(p) {
+		if !pkgs[pkgOfFunc(fn)] || fn.Synthetic != "" || isNewHelper(rootOf(fn)) {
+			continue
+		}
+		for _, gs := range guardSitesOf(p, fn) {
+			if len(gs.Name) < 10 || gs.Name[:10] != "elemstore:" {
+				continue
+			}
+			n++
+			k := fnDisplay(fn)
+			if seen[k] {
+				continue
+			}
+			seen[k] = true
+			why, aud := ok[k]
+			r.add(rule, "elemstore-audited|"+k, p.ipos(gs.In), "the element stores of "+k+" are audited ("+why+")", aud,
+				"elements of a list are rewritten at a place that was never audited")
+		}
+	}
+	r.floor(rule, "element stores", n, 1)
+}
+
+// ruleWalkVisitsAll (R13.18): the directory walk of missing-approve skips nothing.
+func ruleWalkVisitsAll(p *Prog, r *Report) {
+	r.rule("R13.18", "missing-approve visits every file of current/code: no function of package cmd/missing-approve uses fs.SkipDir / fs.SkipAll (filepath.SkipDir / SkipAll). Returned from the callback for a file, SkipDir makes WalkDir drop the remaining entries of that directory: the devices behind it are never checked and never listed.")
+	n, bad := 0, ""
+	for _, fn := range allModFuncs(p) {
+		if pkgOfFunc(fn) != "cmd/missing-approve" {
+			continue
+		}
+		n++
+		for _, b := range fn.Blocks {
+			for _, in := range b.Instrs {
+				for _, op := range in.Operands(nil) {
+					if g, ok := (*op).(*ssa.Global); ok && (g.Name() == "SkipDir" || g.Name() == "SkipAll") {
+						bad = p.ipos(in)
+					}
+				}
+			}
+		}
+	}
+	r.add("R13.18", "walk-visits-all|cmd/missing-approve", bad, fmt.Sprintf("%d functions of cmd/missing-approve, none uses SkipDir / SkipAll", n), bad == "" && n > 0,
+		"the walk over the devices of the current policy can skip entries")
 }
